@@ -40,8 +40,11 @@ func (c *FnCtx) evalCall(st *State, call *ast.CallExpr) []*Term {
 				fn := sel.Obj().(*types.Func)
 				recv := c.eval(st, f.X)
 				recvT := c.typeOf(f.X)
-				// walk embedded path to the receiver
+				// walk embedded path to the receiver (promoted methods of external types keep the outer receiver)
 				idx := sel.Index()
+				if on := ownerNamed(recvT); on != nil && !isRepoPkg(on.Obj().Pkg()) {
+					idx = nil
+				}
 				if len(idx) > 1 {
 					recv = c.walkFieldPath(st, recv, recvT, idx[:len(idx)-1], f)
 					recvT = recv.GoT
@@ -280,7 +283,7 @@ func (c *FnCtx) callStatic(st *State, call *ast.CallExpr, fn *types.Func, recv *
 			}
 		}
 	}
-	if recv != nil {
+	if recv != nil && isRepoPkg(fn.Pkg()) {
 		// implicit address-of / dereference of the receiver
 		declRecv := fn.Type().(*types.Signature).Recv().Type()
 		_, isIface := types.Unalias(declRecv).Underlying().(*types.Interface)
@@ -369,6 +372,17 @@ func (c *FnCtx) applyCallee(st *State, site ast.Node, key string, sig *types.Sig
 		g := mkNot(mkEq(recv, intLit(0)))
 		c.oblige(st, "pre", site, shortFuncKey(key)+"#recv", "receiver of "+shortFuncKey(key)+" is not nil", g)
 		st.assume(g)
+	}
+	if isRepo && fiCallee != nil {
+		fsig := fiCallee.Obj.Type().(*types.Signature)
+		for i := 0; i < fsig.Params().Len() && i < len(args); i++ {
+			p := fsig.Params().At(i)
+			if isExtPointer(p.Type()) && !(ct != nil && ct.nilable(p.Name())) {
+				g := mkNot(mkEq(args[i], intLit(0)))
+				c.oblige(st, "pre", site, shortFuncKey(key)+"#nonnil:"+p.Name(), "argument "+p.Name()+" of "+shortFuncKey(key)+" is not nil", g)
+				st.assume(g)
+			}
+		}
 	}
 	if ct == nil && isRepo && fiCallee == nil {
 		// method of an interface declared in the repository: a pure observer of its receiver
@@ -598,4 +612,23 @@ func (c *FnCtx) appendContainsFacts(st *State, r, s *Term, vs []*Term) {
 	}
 	st.assume(mkForall([]Bound{{x.Op, es}}, mkImplies(in(s), in(r)), []*Term{in(s)}, []*Term{in(r)}))
 	st.assume(mkForall([]Bound{{x.Op, es}}, mkImplies(in(r), mkOr(append([]*Term{in(s)}, eqs...)...)), []*Term{in(r)}))
+}
+
+// isExtPointer: pointer to a struct declared outside the repository (AST nodes, passes, type-checker objects).
+// Such parameters carry the implicit precondition "not nil" unless the contract lists them as `nilable`.
+func isExtPointer(t types.Type) bool {
+	p, ok := types.Unalias(t).Underlying().(*types.Pointer)
+	if !ok {
+		return false
+	}
+	return isExtStruct(p.Elem())
+}
+
+func (ct *Contract) nilable(name string) bool {
+	for _, n := range ct.NilableParams {
+		if n == name {
+			return true
+		}
+	}
+	return false
 }
